@@ -115,6 +115,8 @@ def access_path(body, t, roots=None, depth=0):
         r = access_path(body, t[1], roots, depth + 1)
         if r is None:
             return None
+        if k == "index" and not _is_each_index(body, t[2], r, roots, depth):
+            return (r[0], r[1] + "[#]")        # one position, not every element
         return (r[0], r[1] + "[*]")
     if k == "call":
         name = t[1]["name"]
@@ -152,6 +154,8 @@ def access_path(body, t, roots=None, depth=0):
             r = access_path(body, t[2][0], roots, depth + 1)
             if r is None:
                 return None
+            if not _is_each_index(body, t[2][1], r, roots, depth):
+                return (r[0], r[1] + "[#]")
             return (r[0], r[1] + "[*]")
         return (t, "")
     if k == "phi":
@@ -160,6 +164,51 @@ def access_path(body, t, roots=None, depth=0):
             return rs[0]
         return None
     return None
+
+
+def _is_each_index(body, idx, base, roots, depth):
+    """is `idx` the loop variable of `for i in 0..len(<base>)` (so that `base[idx]` denotes every element in turn)?  A constant index, an index computed
+    elsewhere, or a range over another collection's length denotes one position only.  Slices taken apart by patterns (no index term) count as every
+    element, as before."""
+    if idx is None:
+        return True
+    from . import mir as _mir
+    i = idx
+    while i[0] in ("cast", "copy", "move") and len(i) > 2:
+        i = i[2]
+    if not (i[0] == "field" and i[1][0] == "downcast" and i[1][3] == "Some"):
+        return False
+    nx = i[1][1]
+    if not (nx[0] == "call" and _callee_last(nx[1]["name"]) == "next" and len(nx[2]) == 1):
+        return False
+    it = _mir.strip_transparent(nx[2][0])
+    if it[0] != "var":
+        return False
+    ini = body.var_init(it[1])
+    if len(ini) != 1:
+        return False
+    r = ini[0]
+    while r[0] == "call" and _callee_last(r[1]["name"]) == "into_iter" and len(r[2]) == 1:
+        r = r[2][0]
+    if not (r[0] == "agg" and r[2].get("adt") == "core::ops::range::Range" and len(r[3]) == 2):
+        return False
+    lo, hi = r[3]
+    if not (lo[0] == "int" and lo[1] == 0):
+        return False
+    for _ in range(4):
+        while hi[0] == "cast":
+            hi = hi[2]
+        if hi[0] == "var":
+            hini = body.var_init(hi[1])
+            if len(hini) != 1:
+                return False
+            hi = hini[0]
+        else:
+            break
+    if not (hi[0] == "call" and _callee_last(hi[1]["name"]) == "len" and len(hi[2]) == 1):
+        return False
+    hp = access_path(body, hi[2][0], roots, depth + 1)
+    return hp is not None and hp[0] == base[0] and norm(hp[1]) == norm(base[1])
 
 
 def _is_ref_preserving(t):
